@@ -56,6 +56,25 @@ package inject
 //@   loop 0 invariant (val == inj.values[t] && (forall k reflect.Type :: visited(k) ==> !rtImplements(k, t))) ||
 //@       (exists k reflect.Type :: has(inj.values, k) && rtImplements(k, t) && val == inj.values[k])
 
+// Apply: every settable field tagged `inject` of the struct behind val is resolved with Value(field type) - the same
+// lookup rule as for handler parameters - and set to exactly that value; the first field that cannot be resolved makes
+// Apply fail (fields before it have been set); untagged or unsettable fields are left alone; the injector is not changed.
+//@ ghost private field injector.applied map[int]reflect.Value   // value handed to Set for field i of the current Apply
+//@ ghost private field injector.applyTarget reflect.Value        // the struct value (pointers removed) of the current Apply
+//@ define applyWanted(sv reflect.Value, i int) bool = rvCanSet(rvField(sv, i)) && tagHas(rtFieldTag(rvType(sv), i), "inject")
+//@ func (*injector).Apply
+//@   props C04
+//@   requires injOK(inj)
+//@   modifies inj.applied, inj.applyTarget
+//@   panics false
+//@   ghost before Kind#1: inj.applyTarget = v
+//@   ghost before Set#0: inj.applied[i] = v#1
+//@   assert[C04] before Set#0: applyWanted(inj.applyTarget, i) && rvValid(v#1) && valueOK(inj, rvType(rvField(inj.applyTarget, i)), v#1) && f == rvField(inj.applyTarget, i)
+//@   ensures result == nil && rvKind(inj.applyTarget) == 25 ==> forall j int :: 0 <= j && j < rvNumField(inj.applyTarget) && applyWanted(inj.applyTarget, j) ==>
+//@       rvValid(inj.applied[j]) && valueOK(inj, rvType(rvField(inj.applyTarget, j)), inj.applied[j])
+//@   loop 1 invariant injOK(inj) && 0 <= i && rvKind(v) == 25 && t == rvType(v) && inj.applyTarget == v
+//@   loop 1 invariant forall j int :: 0 <= j && j < i && applyWanted(v, j) ==> rvValid(inj.applied[j]) && valueOK(inj, rvType(rvField(v, j)), inj.applied[j])
+
 // registration: a later registration for the same type replaces the earlier one
 //@ func (*injector).MapTo
 //@   props C04
